@@ -186,6 +186,10 @@ func TestC05(t *testing.T) {
 				mut[i] ^= 1 << c.Uniform("flip.bit", 0, 7)
 				stream[pos] = c05Chunk{data: mut, orig: ch.orig, what: kind + "(" + ch.what + ")", desync: ch.desync || kind == "flip-length"}
 			case "truncate":
+				if len(ch.data) < 2 {
+					stream = append(stream[:pos], stream[pos+1:]...)
+					break
+				}
 				j := c.Uniform("trunc.at", 1, len(ch.data)-1)
 				stream[pos] = c05Chunk{data: ch.data[:j], orig: ch.orig, what: "truncate(" + ch.what + ")", desync: true}
 			case "cut":
